@@ -34,6 +34,8 @@ TRUSTED = [
     "structural histories (add service / add, remove bridged accessory / IIDManager assign, remove_obj, remove_iid "
     "interleaved with mutations and reads) hand the model the loader-built definitions of every new service "
     "(type, properties, loader name, initial value) as data",
+    "GET /characteristics is sent in varying legal spellings of the same id list (percent-encoded separators and digits, "
+    "other / unknown / empty parameters before and after id); the model sees the id pairs only",
     "harness generators and the in-process rig harness/ref/dbrig.py (real HAPServerHandler.dispatch on a "
     "connection marked verified)",
 ]
@@ -127,6 +129,30 @@ def getter_outcome(c) -> Optional[dict]:
         return {"v": v}
     except Exception:  # noqa: BLE001
         return None
+
+
+def spell_query(ids, spell: Optional[dict]) -> str:
+    """The request target of GET /characteristics for `ids` in one of its legal spellings: separators and
+    digits percent-encoded, the id parameter before / after / between other (known, unknown, empty)
+    parameters.  Every spelling names the same id list, so the same answer is demanded."""
+    sp = spell or {}
+    comma, dot = sp.get("comma", ","), sp.get("dot", ".")
+
+    def num(n):
+        t = str(n)
+        return "%3" + t[0] + t[1:] if sp.get("digit") and t[0].isdigit() else t
+
+    value = comma.join(num(a) + dot + num(i) for a, i in ids)
+    params = list(sp.get("pre", [])) + ["id=" + value] + list(sp.get("post", []))
+    return "/characteristics?" + "&".join(params)
+
+
+def rand_spell(rng) -> Optional[dict]:
+    if rng.random() < 0.6:
+        return None
+    extra = ["meta=0", "ev=0", "perms=0", "type=0", "meta=1", "x=", "foo=bar", "ev"]
+    return {"comma": rng.choice([",", "%2C", "%2c"]), "dot": rng.choice([".", ".", "%2E"]), "digit": rng.random() < 0.3,
+            "pre": rng.sample(extra, rng.choice([0, 0, 1, 2])), "post": rng.sample(extra, rng.choice([0, 1, 2]))}
 
 
 class Hist:
@@ -465,12 +491,12 @@ class Hist:
             want = ref.expected_read(rig.top, ids)
         except Exception:  # noqa: BLE001 - the state cannot be walked: nothing to demand
             want = None
-        status, doc = rig.http("GET", "/characteristics?id=" + ",".join(f"{a}.{i}" for a, i in ids))
+        status, doc = rig.http("GET", spell_query(ids, op.get("spell")))
         if self.dirty:
             self.reads_after_mutation += 1
         entries = doc.get("characteristics") if isinstance(doc, dict) else None
         if status not in (200, 207) or not isinstance(entries, list):
-            self.fail("C11:characteristics-read-failed", f"GET /characteristics for {ids} answered {status}")
+            self.fail("C11:characteristics-read-failed", f"GET {spell_query(ids, op.get('spell'))} (ids {ids}) answered {status}")
             return {"code": status, "characteristics": None}
         if want is None:
             return {"code": status, "characteristics": canon(entries)}
@@ -796,9 +822,10 @@ def gen_history(ctx: Ctx, pool, program=None, n_ops: Optional[int] = None) -> Hi
             elif step == "read_all_nv":
                 h.apply({"op": "read_all", "incl": False})
             elif step == "read_one":
-                h.apply({"op": "read_chars", "ids": [pair_of(t)]})
+                h.apply({"op": "read_chars", "ids": [pair_of(t)], "spell": rng.choice([None, {"dot": "%2E", "post": ["meta=0"]}, {"digit": True, "pre": ["ev=0"]}])})
             elif step == "read_many":
-                h.apply({"op": "read_chars", "ids": [pair_of(t), pair_of(rng.choice(live)), pair_of(t)]})
+                h.apply({"op": "read_chars", "ids": [pair_of(t), pair_of(rng.choice(live)), pair_of(t)],
+                         "spell": rng.choice([None, {"comma": "%2C"}, {"comma": "%2C", "pre": ["meta=0"], "post": ["ev=0", "x="]}])})
             elif step == "read_unknown":
                 h.apply({"op": "read_chars", "ids": [pair_of(t), [acc.aid, acc.iid_manager.counter + 3], [77, 1]]})
                 # runs of ids of an accessory that does not exist: after, between and before existing ones
@@ -840,7 +867,7 @@ def gen_history(ctx: Ctx, pool, program=None, n_ops: Optional[int] = None) -> Hi
         if x < 0.22:
             h.apply({"op": "read_all", "incl": rng.random() < 0.7, "via": rng.choice(["driver", "handler"])})
         elif x < 0.42:
-            h.apply({"op": "read_chars", "ids": rand_ids()})
+            h.apply({"op": "read_chars", "ids": rand_ids(), "spell": rand_spell(rng)})
         elif x < 0.46 and rig.is_bridge and len(rig.top.accessories):
             h.apply({"op": "available", "aid": rng.choice(list(rig.top.accessories)), "on": rng.random() < 0.5})
         elif x < 0.49:
